@@ -289,8 +289,8 @@ func Templates() []Template {
 	}
 	ts = append(ts, reduce("ArgMax"), reduce("ReduceMax"), reduce("ReduceMin"))
 	ts = append(ts, Template{Name: "Cast", Gen: func(rw, rd *rng.R, b int) OpCase {
-		from := pick(rw, val.Float32, val.Int64, val.Int32, val.Float64)
-		to := pick(rw, val.Float32, val.Int64, val.Int32, val.Float64, val.Int16, val.Uint32)
+		from := pick(rw, val.Float32, val.Int64, val.Int32, val.Float64, val.Float32, val.Int16, val.Uint16, val.Uint32, val.Uint64, val.Int8, val.Uint8)
+		to := pick(rw, val.Float32, val.Int64, val.Int32, val.Float64, val.Int16, val.Uint32, val.Uint16, val.Uint64, val.Int8, val.Bool)
 		return OpCase{Op: "Cast", Attrs: []mb.Attr{mb.AI("to", int64(to))}, Operands: []Operand{data(RandOf(rd, from, []int{b, 3}), 0)}, Outs: []string{"y"}}
 	}})
 	ts = append(ts, Template{Name: "Concat", Sensitive: true, Gen: func(rw, rd *rng.R, b int) OpCase {
